@@ -67,7 +67,7 @@ def decision_table(prog, f):
     """one row per acyclic path of the comparison function: (conditions along the path, result term, row record)"""
     pv = Prov(f)
     try:
-        rows = path_rows(f, pv)
+        rows = path_rows(f, pv, precise=True)
     except TooManyPaths:
         raise CannotEval("%s has too many paths to enumerate" % f.key)
     return rows, pv
@@ -190,9 +190,24 @@ def leaf(t, a, b):
         return t[1]
     p = payload_of(t)
     if p is None:
+        # a pure expression over the labels' components (a sort key such as `(i < 0, magnitude)`): evaluate the TERM
+        # with the components it mentions bound to the sample's values
+        from lib.evalterm import ev, Unknown
+        env = {}
+        for s in subterms(t):
+            ps = payload_of(s) if isinstance(s, tuple) and s and s[0] in ("field", "call") else None
+            if ps is not None and ps[0] != "assigned" and s not in env:
+                env[s] = leaf(s, a, b)
+        if env:
+            try:
+                return ev(t, env)
+            except (Unknown, TypeError, ValueError, KeyError, IndexError):
+                pass
         raise CannotEval("operand %s" % show(t)[:80])
     kind, side = p
     v = a if side == 0 else b
+    if isinstance(v, tuple):
+        v = v[1]          # (variant, value) samples of the registered-label types
     if kind == "int":
         if not isinstance(v, int):
             raise CannotEval("int payload of a text label")
@@ -298,6 +313,8 @@ def check(ctx):
     labels = INTS + TEXTS
 
     def variant_of(x):
+        if isinstance(x, tuple):
+            return x[0]
         return "Int" if isinstance(x, int) else "Text"
 
     table = None
@@ -366,61 +383,35 @@ def check(ctx):
               and rt[3][0][1][2] == (("param", 0), ("param", 1)))
         ctx.ob("R-2", "partial_cmp:%s" % ty, ok, "%s::partial_cmp(a, b) = Some(a.cmp(b))" % ty, where=g.span, detail={"return": show(rt)[:120]})
 
-    # R-3 delegation
+    # R-3 the registered-label types order like the labels they stand for: their decision tables evaluated on the lattice
+    small_ints = INTS[::2] + [-1, 0, 1, 23, 24]
+    small_texts = TEXTS[:10]
     for ty, intvars in (("common::RegisteredLabel<T>", ["Assigned"]), ("common::RegisteredLabelWithPrivate<T>", ["Assigned", "PrivateUse"])):
         g = prog.fn("<%s as core::cmp::Ord>::cmp" % ty)
         problems = []
-        seen = set()
+        npairs = 0
+        paths = 0
         try:
-            grows, gpv = decision_table(prog, g)
+            gtable = decision_table(prog, g)
+            paths = len(gtable[0])
+            samples = [(v, i) for v in intvars for i in small_ints] + [("Text", s) for s in small_texts]
+            for a, b in itertools.product(samples, samples):
+                npairs += 1
+                got = table_eval(prog, gtable, a, b, variant_of, label_cmp if table is not None else None)
+                want = ordname(cmp(enc(a[1]), enc(b[1])))
+                if got != want:
+                    problems.append("cmp(%s(%r), %s(%r)) = %s, the labels they denote order as %s" % (
+                        a[0], a[1] if isinstance(a[1], int) else a[1][:8], b[0], b[1] if isinstance(b[1], int) else b[1][:8], got, want))
+                    if len(problems) > 5:
+                        break
         except CannotEval as e:
-            grows, gpv = [], None
-            problems.append(str(e))
-        allv = intvars + ["Text"]
-        for r in grows:
-            v0, v1, extra = row_variants(prog, gpv, r)
-            v0 = set(allv) if v0 is None else v0
-            v1 = set(allv) if v1 is None else v1
-            if not v0 or not v1:
-                continue   # contradictory discriminant tests: not a path any value takes
-            term = r["term"]
-            if extra or r["kind"] == "diverge":
-                problems.append("path not selected by the variant pair alone: %s" % show(term)[:60])
-                continue
-            for a, b in itertools.product(sorted(v0), sorted(v1)):
-                seen.add((a, b))
-                if a in intvars and b in intvars:
-                    ok = is_call(term, LABEL_CMP)
-                    if ok:
-                        try:
-                            x = _which(term[2][0])
-                            y = _which(term[2][1])
-                            ok = x == (0, a) and y == (1, b)
-                        except CannotEval:
-                            ok = False
-                    if not ok:
-                        problems.append("(%s,%s) should be Label::Int(self).cmp(&Label::Int(other)), found %s" % (a, b, show(term)[:120]))
-                elif a in intvars and b == "Text":
-                    if term != ("aggr", "core::cmp::Ordering", "Less", ()):
-                        problems.append("(%s,Text) should be Less" % a)
-                elif a == "Text" and b in intvars:
-                    if term != ("aggr", "core::cmp::Ordering", "Greater", ()):
-                        problems.append("(Text,%s) should be Greater" % b)
-                elif a == "Text" and b == "Text":
-                    try:
-                        for s1, s2 in itertools.product(TEXTS, TEXTS):
-                            if eval_result(prog, term, s1, s2) != ordname(cmp(enc(s1), enc(s2))):
-                                problems.append("text comparison differs from encoded order on (%r,%r)" % (s1[:8], s2[:8]))
-                                break
-                    except CannotEval as e:
-                        problems.append("text arm not understood: %s" % e)
-        missing = sorted(set(itertools.product(allv, allv)) - seen)
-        if missing:
-            problems.append("variant pairs without an arm: %s" % missing)
-        problems = sorted(set(problems))
+            problems.append("not understood: %s" % e)
+        undec = any(p.startswith("not understood") for p in problems)
         ctx.ob("R-3", "delegation:%s" % ty, not problems,
-               "%s::cmp delegates integer pairs to Label::cmp(Label::Int(self), Label::Int(other)) unswapped; ints before text; text by length then bytes" % ty,
-               where=g.span, detail={"problems": problems[:10]}, sample={"type": ty, "paths": len(grows)})
+               "%s::cmp orders values exactly like the labels they denote (integer variants by Label's integer order - delegated or "
+               "computed alike - , integers before text, text by length then bytes): decision table vs oracle on %d pairs" % (ty, npairs),
+               where=g.span, detail={"problems": problems[:6]}, sample={"type": ty, "paths": paths, "pairs": npairs},
+               kind="cannot-decide" if undec else None)
 
     # R-4 cmp_canonical: evaluated over the same lattice against the length-first order of the encodings
     h = prog.fn("common::Label::cmp_canonical")
